@@ -92,6 +92,8 @@ register(PropertySpec(
              "the duplicate trackers for true and for false rows of a node are two objects wherever the by-truth mapping is built"),
         Rule("QUERY-FRESH-STATE", _lazy("history", "rule_query_fresh_state"), 2,
              "(shared with C04) every evaluation of a quantifier resets the duplicate-suppression state below it first: a suspended earlier iterator of the same query must not hide rows"),
+        Rule("VALUE-IDENTITY", _lazy("extra", "rule_value_identity"), 8,
+             "(shared with C20) a domain of distinct objects stays distinct: the identifier of a wrapped value is its identity, and an identifier carried in _id_ is believed only of the package's own expressions"),
     ],
     explanation="Decides the clause 'the condition vocabulary denotes the ordinary Python operator': the node each "
                 "public comparison/membership entry constructs (arguments mapped to dataclass fields through the MRO "
@@ -364,6 +366,8 @@ register(PropertySpec(
              "(shared with C16) every element of a flattened collection has an identity of its own: the result caches and duplicate filters are keyed by it, so a result recorded for one element is not replayed for its siblings (a second solution appears / disappears)"),
         Rule("FAILURE-CTOR-TOTAL", _lazy("the", "rule_failure_ctor_total"), 2,
              "constructing MultipleSolutionFound / NoSolutionFound cannot itself raise (no keyed lookup on the rows, no next(), no assert)"),
+        Rule("VALUE-IDENTITY", _lazy("extra", "rule_value_identity"), 8,
+             "(shared with C20) a domain of distinct objects stays distinct: the identifier of a wrapped value is its identity, and an identifier carried in _id_ is believed only of the package's own expressions"),
     ],
     explanation="The three outcomes of `the` are decided by a typestate interpretation of its evaluator over the finite "
                 "state space (result None/solution, solutions consumed 0/1/>=2, _is_false_), exception classes resolved "
@@ -470,6 +474,8 @@ register(PropertySpec(
              "the inferred mark of a shared variable is given by evaluation code and taken back, never at construction time"),
         Rule("SELECTOR-ROW-DEDUP", _lazy("ruletree", "rule_selector_row_dedup"), 2,
              "the selectors built by refinement / alternative never drop a TRUE row because of the values of the variables the conclusions mention (two such assignments can select different conclusions)"),
+        Rule("DESCRIPTOR-SIBLINGS", _lazy("ruletree", "rule_descriptor_siblings"), 3,
+             "entity and set_of are one implementation: a type test on the kind of a descriptor covers every kind (same test or the arms of its chain), so a rule or query written with set_of takes the paths the same one written with entity takes"),
     ],
     explanation="Attaching a branch rewires the condition tree in place; evaluation follows the left/right fields, not "
                 "the graph edges, so a selector that is attached in the graph but not stored in its parent's operand slot "
@@ -521,6 +527,8 @@ register(PropertySpec(
              "is_iterable is exactly has-__iter__ and not a string / bytes / class (truth table over its atoms): an object that is only indexable is a domain of one value"),
         Rule("ARG-NOT-MUTATED", _lazy("predform", "rule_arg_not_mutated"), 4,
              "(shared with C02) a predicate-form term in a caller's list of selected variables is replaced by its variable in a copy, not in the caller's list"),
+        Rule("VALUE-IDENTITY", _lazy("extra", "rule_value_identity"), 8,
+             "(shared with C20) a domain of distinct objects stays distinct: the identifier of a wrapped value is its identity, and an identifier carried in _id_ is believed only of the package's own expressions"),
     ],
     explanation="Decides the construction-time clauses: positional binding re-implemented by the library agrees with "
                 "Python's (finite abstract evaluation of the loop over scenario argument lists), the type filter uses "
@@ -708,6 +716,8 @@ register(PropertySpec(
              "outside a block a decorated class is allocated by the __new__ the undecorated class would use, with the arguments of the call"),
         Rule("INFER-MARK", _lazy("ruletree", "rule_infer_mark_transient"), 1,
              "the inferred mark of a shared variable is given by evaluation code and taken back, never at construction time"),
+        Rule("VALUE-IDENTITY", _lazy("extra", "rule_value_identity"), 8,
+             "(shared with C20) a domain of distinct objects stays distinct: the identifier of a wrapped value is its identity, and an identifier carried in _id_ is believed only of the package's own expressions"),
     ],
     explanation="Registry discipline is ownership: a single writer, on a must-pass-through path of the concrete "
                 "constructor arm, keyed by the runtime class; the symbolic arm provably (call-graph closure) cannot "
@@ -761,6 +771,8 @@ register(PropertySpec(
              "per row of its first operand an operator either replays the cached rows of the second or evaluates it, then goes on with the next row (CFG path rule at every per-row replay site)"),
         Rule("REG-LIVE", _lazy("registry", "rule_reg_live"), 5,
              "(shared with C14) a universal variable without a domain ranges over the instances that exist when the for_all is evaluated"),
+        Rule("VALUE-IDENTITY", _lazy("extra", "rule_value_identity"), 8,
+             "(shared with C20) a domain of distinct objects stays distinct: the identifier of a wrapped value is its identity, and an identifier carried in _id_ is believed only of the package's own expressions"),
     ],
     explanation="Universal quantification is implemented as a running intersection; that the accumulated set can only "
                 "shrink, is seeded once and is emptied by a value with no satisfying binding is a typestate property of "
@@ -889,6 +901,10 @@ register(PropertySpec(
              "no generator of the engine yields a dict it keeps in its own state (consumers complete rows in place)"),
         Rule("DEDUP-TRACKERS-DISTINCT", _lazy("binding", "rule_dedup_trackers_distinct"), 2,
              "the duplicate trackers for true and for false rows of a node are two objects wherever the by-truth mapping is built"),
+        Rule("VALUE-IDENTITY", _lazy("extra", "rule_value_identity"), 8,
+             "(shared with C20) a domain of distinct objects stays distinct: the identifier of a wrapped value is its identity, and an identifier carried in _id_ is believed only of the package's own expressions"),
+        Rule("DESCRIPTOR-SIBLINGS", _lazy("ruletree", "rule_descriptor_siblings"), 3,
+             "entity and set_of are one implementation: a type test on the kind of a descriptor covers every kind (same test or the arms of its chain), so a rule or query written with set_of takes the paths the same one written with entity takes"),
     ],
     explanation="An implicit join is a join only if every operator threads the binding it received to its operands and "
                 "keeps everything its operands bound. Both are provenance facts on the evaluation call sites and the "
@@ -1071,6 +1087,8 @@ register(PropertySpec(
              "(shared with C17) a quantified term given as a head argument keeps its conditions: nowhere is a quantifier replaced by the variable it selects"),
         Rule("FLATTEN-EACH", _lazy("extra", "rule_flatten_paths"), 2,
              "(shared with C16) every element of a flattened collection has an identity of its own: an instance is built per satisfying assignment, not per parent"),
+        Rule("DESCRIPTOR-SIBLINGS", _lazy("ruletree", "rule_descriptor_siblings"), 3,
+             "entity and set_of are one implementation: a type test on the kind of a descriptor covers every kind (same test or the arms of its chain), so a rule or query written with set_of takes the paths the same one written with entity takes"),
     ],
     explanation="All clauses are weak but necessary: arguments evaluated under the current binding, one construction "
                 "per combination, no retrieval instead of construction for inferred variables, existing objects passed "
@@ -1186,6 +1204,8 @@ register(PropertySpec(
              "the operators that evaluate shareable operands tell the operand which of its parents is evaluating it, on every path to the evaluation"),
         Rule("REQUEST-DELEGATED", _lazy("subquery", "rule_request_delegated"), 4,
              "an evaluation method that delegates to another evaluation method of the same node hands the request for false rows on unchanged (entity and set_of sub-queries behave alike on the left of `|`)"),
+        Rule("DESCRIPTOR-SIBLINGS", _lazy("ruletree", "rule_descriptor_siblings"), 3,
+             "entity and set_of are one implementation: a type test on the kind of a descriptor covers every kind (same test or the arms of its chain), so a rule or query written with set_of takes the paths the same one written with entity takes"),
     ],
     explanation="Decides the structural clauses of the three mechanisms the property is anchored in: (1) a quantifier node in "
                 "the middle of a tree is transparent for truth (same truth table as its conditions, request for false rows passed "
